@@ -853,12 +853,29 @@ fn main() {
                         // z3 validates the merges and the final identity over the arena terms
                         let mut nz = Normalizer::new(P);
                         nz.deadline = Some(std::time::Instant::now() + std::time::Duration::from_secs(20));
-                        for h in &sys.hyps {
-                            if let Fm::Eq(l, r) = h {
-                                let _ = nz.add_hyp(*l, *r);
+                        // two rounds: substitutions recorded on canonical UF nodes go stale when a
+                        // later hypothesis rewrites their arguments; the second round re-attaches them
+                        for _round in 0..2 {
+                            for h in &sys.hyps {
+                                if let Fm::Eq(l, r) = h {
+                                    let u = nz.add_hyp(*l, *r);
+                                    if std::env::var("VERIF_TRACE").is_ok() && u == HypUse::Ideal {
+                                        let d = nz.norm(*l).zip(nz.norm(*r)).map(|(a, b)| a.sub(&b));
+                                        eprintln!("   [ideal hyp round {_round}] {:?}", d.map(|d| d.t.iter().take(5).map(|(m, c)| format!("{c}*{:?}", m.iter().map(|(v, e)| format!("{}^{e}", with_arena(|ar| match &ar.nodes[*v as usize] { Node::Var(x) => ar.var_names[*x as usize].clone(), _ => format!("n{v}") }))).collect::<Vec<_>>())).collect::<Vec<_>>()));
+                                    }
+                                }
                             }
                         }
                         let mut ok = nz.equal(*cv, *nv) == Some(true);
+                        if std::env::var("VERIF_TRACE").is_ok() {
+                            let (a, b) = (nz.norm(*cv), nz.norm(*nv));
+                            eprintln!("[c06] fallback {name}: equal={ok} lhs terms {:?} rhs terms {:?} merges {} ideal {}", a.as_ref().map(|f| f.t.len()), b.as_ref().map(|f| f.t.len()), nz.merges.len(), nz.ideal.len());
+                            for h in &sys.hyps { if let Fm::Eq(l, r) = h { if *l == *cv || *r == *cv || nz.handle(*l) == nz.handle(*cv) {
+                                let show = |nz: &mut Normalizer, x: H| -> String { match nz.norm(x) { Some(f) => f.t.iter().take(3).map(|(m, c)| format!("{c}*{:?}", m.iter().map(|(v, e)| format!("{}^{e}", with_arena(|ar| match &ar.nodes[*v as usize] { Node::Var(x) => ar.var_names[*x as usize].clone(), Node::Uf { idx, args, .. } => format!("uf{v}[{idx}]({:?})", args.iter().take(16).collect::<Vec<_>>()), _ => format!("n{v}") }))).collect::<Vec<_>>())).collect::<Vec<_>>().join(" + "), None => "none".into() } };
+                                eprintln!("   hyp about the goal cell: {} == {}", show(&mut nz, *l), show(&mut nz, *r));
+                            } } }
+                            if let (Some(a), Some(b)) = (a, b) { let d = a.sub(&b); for (m, c) in d.t.iter().take(8) { eprintln!("      {c} * {:?}", m.iter().map(|(v, e)| format!("{}^{e}", with_arena(|ar| match &ar.nodes[*v as usize] { Node::Var(x) => ar.var_names[*x as usize].clone(), Node::Uf { idx, args, .. } => format!("uf{v}[{idx}]({:?})", args.iter().take(16).collect::<Vec<_>>()), Node::Inv(_) => format!("inv{v}"), _ => format!("cut{v}") }))).collect::<Vec<_>>()); } }
+                        }
                         if ok {
                             solver.set_timeout(5_000);
                             let mut check = |solver: &mut Solver, a: H, b: H| -> bool {
